@@ -114,7 +114,7 @@ func c01HistRecorders(cached, dur bool, rounds, par int) string {
 		}
 		off := k % (len(bounds) - par + 1)
 		c01Barrier(par, func(i int) {
-			v := bounds[off+(i*5)%par] // distinct buckets, not in index order
+			v := bounds[off+(i*5)%par] // distinct buckets (for par coprime to 5), not in index order
 			if dur {
 				h.RecordDuration(time.Duration(v))
 			} else {
